@@ -1,8 +1,10 @@
 import SlipVerif.Model.Printer
+import SlipVerif.Model.PrinterPretty
 import SlipVerif.Driver.Util
 --! namespace: print
 /- line protocol for C03:
      print flat <base>:<radix>:<case>:<readably>:<array> <term word>*   →  ok <hex utf-8 text>
+     print pretty <cfg> <margin> <term word>*                            →  ok <hex utf-8 text>
      print read <read-base> <hex utf-8 text>                             →  ok <term word>* | err <class>
    term words:  n | t | i:<dec> | r:<num>/<den> | s:<hex> | y:<hex> | c:<codepoint>
               | ( <term>* [. <term>] ) | v( <term>* ) | a:<rank> <term>          -/
@@ -109,6 +111,12 @@ def handle (entry : String) (args : List String) : String :=
     | some cfg, some (o, []) => "ok " ++ hexText (printFlat cfg o)
     | none, _ => "bad-request config"
     | _, _ => "bad-request term"
+  | "pretty", cfg :: m :: term =>
+    match parseCfg cfg, m.toNat?, parseTerm (term.length + 1) term with
+    | some cfg, some margin, some (o, []) => "ok " ++ hexText (printPretty cfg margin o)
+    | none, _, _ => "bad-request config"
+    | _, none, _ => "bad-request margin"
+    | _, _, _ => "bad-request term"
   | "read", [rb, h] =>
     match rb.toNat?, unhexString? h with
     | some rbase, some text =>
